@@ -1,0 +1,310 @@
+//go:build verif
+
+package abi
+
+// Contracts for /verif (contract-based deductive verification with govc).
+// This file contains no code; every line starting with //@ is a contract
+// clause read by the verification-condition generator.  Offsets are literal
+// numbers of the Intel TDX quote v4 layout, deliberately NOT the constants of
+// abi.go, so that a self-consistent wrong offset in the code fails a proof.
+
+// ---- structural well-formedness predicates (one per message) ----
+
+//@ define hdrOK(h) = h != nil && h.Version == 4 && h.AttestationKeyType == 2 && h.TeeType == 0x81
+//@ |   && len(h.QeSvn) == 2 && len(h.PceSvn) == 2 && len(h.QeVendorId) == 16 && len(h.UserData) == 20
+
+//@ define bodyOK(b) = b != nil && len(b.TeeTcbSvn) == 16 && len(b.MrSeam) == 48 && len(b.MrSignerSeam) == 48
+//@ |   && len(b.SeamAttributes) == 8 && len(b.TdAttributes) == 8 && len(b.Xfam) == 8 && len(b.MrTd) == 48
+//@ |   && len(b.MrConfigId) == 48 && len(b.MrOwner) == 48 && len(b.MrOwnerConfig) == 48 && len(b.Rtmrs) == 4
+//@ |   && (forall i :: 0 <= i && i < 4 ==> len(b.Rtmrs[i]) == 48) && len(b.ReportData) == 64
+
+//@ define qerOK(r) = r != nil && len(r.CpuSvn) == 16 && len(r.Reserved1) == 28 && len(r.Attributes) == 16
+//@ |   && len(r.MrEnclave) == 32 && len(r.Reserved2) == 32 && len(r.MrSigner) == 32 && len(r.Reserved3) == 96
+//@ |   && r.IsvProdId < 65536 && r.IsvSvn < 65536 && len(r.Reserved4) == 60 && len(r.ReportData) == 64
+
+//@ define authOK(a) = a != nil && a.ParsedDataSize < 65536 && a.ParsedDataSize == uint32(len(a.Data))
+
+//@ define chainOK(c) = c != nil && c.CertificateDataType == 5 && c.Size == uint32(len(c.PckCertChain))
+
+//@ define qercOK(q) = q != nil && qerOK(q.QeReport) && len(q.QeReportSignature) == 64 && authOK(q.QeAuthData)
+//@ |   && chainOK(q.PckCertificateChainData)
+
+//@ define certOK(c) = c != nil && c.CertificateDataType == 6 && qercOK(c.QeReportCertificationData)
+
+//@ define sdOK(s) = s != nil && len(s.Signature) == 64 && len(s.EcdsaAttestationKey) == 64 && certOK(s.CertificationData)
+
+//@ define quoteOK(q) = q != nil && hdrOK(q.Header) && bodyOK(q.TdQuoteBody) && sdOK(q.SignedData)
+
+// ---- byte layouts (serialised form) ----
+
+//@ define hdrBytes(h) = cat(le16(h.Version), le16(h.AttestationKeyType), le32(h.TeeType), seq(h.PceSvn), seq(h.QeSvn),
+//@ |   seq(h.QeVendorId), seq(h.UserData))
+
+//@ define bodyBytes(b) = cat(seq(b.TeeTcbSvn), seq(b.MrSeam), seq(b.MrSignerSeam), seq(b.SeamAttributes), seq(b.TdAttributes),
+//@ |   seq(b.Xfam), seq(b.MrTd), seq(b.MrConfigId), seq(b.MrOwner), seq(b.MrOwnerConfig),
+//@ |   seq(b.Rtmrs[0]), seq(b.Rtmrs[1]), seq(b.Rtmrs[2]), seq(b.Rtmrs[3]), seq(b.ReportData))
+
+//@ define qerBytes(r) = cat(seq(r.CpuSvn), le32(r.MiscSelect), seq(r.Reserved1), seq(r.Attributes), seq(r.MrEnclave),
+//@ |   seq(r.Reserved2), seq(r.MrSigner), seq(r.Reserved3), le16(r.IsvProdId), le16(r.IsvSvn), seq(r.Reserved4), seq(r.ReportData))
+
+//@ define authBytes(a) = cat(le16(a.ParsedDataSize), seq(a.Data))
+
+//@ define chainBytes(c) = cat(le16(c.CertificateDataType), le32(c.Size), seq(c.PckCertChain))
+
+//@ define qercBytes(q) = cat(qerBytes(q.QeReport), seq(q.QeReportSignature), authBytes(q.QeAuthData), chainBytes(q.PckCertificateChainData))
+
+//@ define certBytes(c) = cat(le16(c.CertificateDataType), le32(c.Size), qercBytes(c.QeReportCertificationData))
+
+//@ define sdBytes(s) = cat(seq(s.Signature), seq(s.EcdsaAttestationKey), certBytes(s.CertificationData))
+
+//@ define quoteBytes(q) = cat(hdrBytes(q.Header), bodyBytes(q.TdQuoteBody), le32(q.SignedDataSize), sdBytes(q.SignedData), seq(q.ExtraBytes))
+
+// ---- helpers ----
+
+//@ func clone(b) (r)
+//@   ensures len(r) == len(b) && cap(r) == len(b) && r != nil
+//@   ensures seq(r) == seq(b)
+//@   fresh r
+
+//@ func ecdsaGetR(signature) (r)
+//@   inline
+//@ func ecdsaGetS(signature) (r)
+//@   inline
+
+// ---- checkers: accept exactly the well-formed messages ----
+
+//@ func checkHeader(header) (err)
+//@   ensures[iff] err == nil <==> hdrOK(header)
+
+//@ func checkTDQuoteBody(tdQuoteBody) (err)
+//@   ensures[iff] err == nil <==> bodyOK(tdQuoteBody)
+//@   loop 0: unroll 4
+
+//@ func checkPCKCertificateChain(chain) (err)
+//@   ensures[iff] err == nil <==> chainOK(chain)
+
+//@ func checkQeReport(report) (err)
+//@   ensures[iff] err == nil <==> qerOK(report)
+
+//@ func checkQeAuthData(authData) (err)
+//@   ensures[iff] err == nil <==> authOK(authData)
+
+//@ func checkQeReportCertificationData(qeReport) (err)
+//@   ensures[iff] err == nil <==> qercOK(qeReport)
+
+//@ func checkCertificationData(certification) (err)
+//@   ensures[iff] err == nil <==> certOK(certification)
+
+//@ func checkEcdsa256BitQuoteV4AuthData(signedData) (err)
+//@   ensures[iff] err == nil <==> sdOK(signedData)
+
+//@ func CheckQuoteV4(quote) (err)
+//@   ensures[iff] err == nil <==> quoteOK(quote)
+
+// ---- serialisers: total, exact layout, fresh result ----
+
+//@ func HeaderToAbiBytes(header) (r, err)
+//@   ensures[iff] err == nil <==> hdrOK(header)
+//@   ensures[layout] err == nil ==> seq(r) == hdrBytes(header)
+//@   ensures[len] err == nil ==> len(r) == 48
+//@   fresh r
+
+//@ func TdQuoteBodyToAbiBytes(tdQuoteBody) (r, err)
+//@   ensures[iff] err == nil <==> bodyOK(tdQuoteBody)
+//@   ensures[layout] err == nil ==> seq(r) == bodyBytes(tdQuoteBody)
+//@   ensures[len] err == nil ==> len(r) == 584
+//@   loop 0: unroll 4
+//@   fresh r
+
+//@ func EnclaveReportToAbiBytes(report) (r, err)
+//@   ensures[iff] err == nil <==> qerOK(report)
+//@   ensures[layout] err == nil ==> seq(r) == qerBytes(report)
+//@   ensures[len] err == nil ==> len(r) == 384
+//@   fresh r
+
+//@ func pckCertificateChainToAbiBytes(pckCertificateChain) (r, err)
+//@   ensures[iff] err == nil <==> chainOK(pckCertificateChain)
+//@   ensures[layout] err == nil ==> seq(r) == chainBytes(pckCertificateChain)
+//@   fresh r
+
+//@ func qeAuthDataToAbiBytes(authData) (r, err)
+//@   ensures[iff] err == nil <==> authOK(authData)
+//@   ensures[layout] err == nil ==> seq(r) == authBytes(authData)
+//@   fresh r
+
+//@ func qeReportCertificationDataToAbiBytes(qeReport) (r, err)
+//@   ensures[iff] err == nil <==> qercOK(qeReport)
+//@   ensures[layout] err == nil ==> seq(r) == qercBytes(qeReport)
+//@   fresh r
+
+//@ func certificationDataToAbiBytes(certification) (r, err)
+//@   ensures[iff] err == nil <==> certOK(certification)
+//@   ensures[layout] err == nil ==> seq(r) == certBytes(certification)
+//@   fresh r
+
+//@ func signedDataToAbiBytes(signedData) (r, err)
+//@   ensures[iff] err == nil <==> sdOK(signedData)
+//@   ensures[layout] err == nil ==> seq(r) == sdBytes(signedData)
+//@   fresh r
+
+//@ func quoteToAbiBytesV4(quote) (r, err)
+//@   ensures[iff] err == nil <==> quoteOK(quote)
+//@   ensures[layout] err == nil ==> seq(r) == quoteBytes(quote)
+//@   fresh r
+
+//@ func QuoteToAbiBytes(quote) (r, err)
+//@   ensures[iff] err == nil <==> typeis(quote, "*tdx.QuoteV4") && quoteOK(as(quote, "*tdx.QuoteV4"))
+//@   ensures[layout] err == nil ==> seq(r) == quoteBytes(as(quote, "*tdx.QuoteV4"))
+//@   fresh r
+
+// ---- wire-format well-formedness of byte strings (literal v4 offsets) ----
+
+//@ define chainWF(s) = len(s) >= 6 && rd16(s, 0) == 5 && int(rd32(s, 2)) == len(s) - 6
+
+//@ define authWF(s) = len(s) >= 2 && 2 + int(rd16(s, 0)) <= len(s)
+
+//@ define qercWF(s) = len(s) >= 450 && 456 + int(rd16(s, 448)) <= len(s) && rd16(s, 450 + int(rd16(s, 448))) == 5
+//@ |   && int(rd32(s, 452 + int(rd16(s, 448)))) == len(s) - 456 - int(rd16(s, 448))
+
+//@ define certWF(s) = len(s) >= 6 && rd16(s, 0) == 6 && int(rd32(s, 2)) == len(s) - 6 && qercWF(s[6:])
+
+//@ define sdWF(s) = len(s) >= 128 && certWF(s[128:])
+
+//@ define quoteWF(s) = len(s) >= 1020 && rd16(s, 0) == 4 && rd16(s, 2) == 2 && rd32(s, 4) == 0x81
+//@ |   && int(rd32(s, 632)) <= len(s) - 636 && sdWF(s[636:636+int(rd32(s, 632))])
+
+// ---- field-by-field meaning of a parse result (every field is the literal slice) ----
+
+//@ define hdrFields(h, s) = h != nil && h.Version == uint32(rd16(s, 0)) && h.AttestationKeyType == uint32(rd16(s, 2))
+//@ |   && h.TeeType == rd32(s, 4) && seq(h.PceSvn) == s[8:10] && seq(h.QeSvn) == s[10:12]
+//@ |   && seq(h.QeVendorId) == s[12:28] && seq(h.UserData) == s[28:48]
+
+//@ define bodyFields(t, s) = t != nil && seq(t.TeeTcbSvn) == s[0:16] && seq(t.MrSeam) == s[16:64] && seq(t.MrSignerSeam) == s[64:112]
+//@ |   && seq(t.SeamAttributes) == s[112:120] && seq(t.TdAttributes) == s[120:128] && seq(t.Xfam) == s[128:136]
+//@ |   && seq(t.MrTd) == s[136:184] && seq(t.MrConfigId) == s[184:232] && seq(t.MrOwner) == s[232:280]
+//@ |   && seq(t.MrOwnerConfig) == s[280:328] && len(t.Rtmrs) == 4 && seq(t.Rtmrs[0]) == s[328:376] && seq(t.Rtmrs[1]) == s[376:424]
+//@ |   && seq(t.Rtmrs[2]) == s[424:472] && seq(t.Rtmrs[3]) == s[472:520] && seq(t.ReportData) == s[520:584]
+
+//@ define qerFields(r, s) = r != nil && seq(r.CpuSvn) == s[0:16] && r.MiscSelect == rd32(s, 16) && seq(r.Reserved1) == s[20:48]
+//@ |   && seq(r.Attributes) == s[48:64] && seq(r.MrEnclave) == s[64:96] && seq(r.Reserved2) == s[96:128]
+//@ |   && seq(r.MrSigner) == s[128:160] && seq(r.Reserved3) == s[160:256] && r.IsvProdId == uint32(rd16(s, 256))
+//@ |   && r.IsvSvn == uint32(rd16(s, 258)) && seq(r.Reserved4) == s[260:320] && seq(r.ReportData) == s[320:384]
+
+//@ define authFields(a, s) = a != nil && a.ParsedDataSize == uint32(rd16(s, 0)) && seq(a.Data) == s[2:2+int(rd16(s, 0))]
+
+//@ define chainFields(c, s) = c != nil && c.CertificateDataType == uint32(rd16(s, 0)) && c.Size == rd32(s, 2) && seq(c.PckCertChain) == s[6:]
+
+//@ define qercFields(q, s) = q != nil && qerFields(q.QeReport, s[0:384]) && seq(q.QeReportSignature) == s[384:448]
+//@ |   && authFields(q.QeAuthData, s[448:]) && chainFields(q.PckCertificateChainData, s[450+int(rd16(s, 448)):])
+
+//@ define certFields(c, s) = c != nil && c.CertificateDataType == uint32(rd16(s, 0)) && c.Size == rd32(s, 2)
+//@ |   && qercFields(c.QeReportCertificationData, s[6:])
+
+//@ define sdFields(d, s) = d != nil && seq(d.Signature) == s[0:64] && seq(d.EcdsaAttestationKey) == s[64:128]
+//@ |   && certFields(d.CertificationData, s[128:])
+
+//@ define quoteFields(q, s) = q != nil && hdrFields(q.Header, s[0:48]) && bodyFields(q.TdQuoteBody, s[48:632])
+//@ |   && q.SignedDataSize == rd32(s, 632) && sdFields(q.SignedData, s[636:636+int(rd32(s, 632))])
+//@ |   && seq(q.ExtraBytes) == s[636+int(rd32(s, 632)):]
+
+// freshness of every byte slice stored in a parse result
+//@ define hdrFresh(h) = fresh(h.PceSvn) && fresh(h.QeSvn) && fresh(h.QeVendorId) && fresh(h.UserData)
+//@ define bodyFresh(t) = fresh(t.TeeTcbSvn) && fresh(t.MrSeam) && fresh(t.MrSignerSeam) && fresh(t.SeamAttributes)
+//@ |   && fresh(t.TdAttributes) && fresh(t.Xfam) && fresh(t.MrTd) && fresh(t.MrConfigId) && fresh(t.MrOwner)
+//@ |   && fresh(t.MrOwnerConfig) && fresh(t.Rtmrs) && fresh(t.Rtmrs[0]) && fresh(t.Rtmrs[1]) && fresh(t.Rtmrs[2])
+//@ |   && fresh(t.Rtmrs[3]) && fresh(t.ReportData)
+//@ define qerFresh(r) = fresh(r.CpuSvn) && fresh(r.Reserved1) && fresh(r.Attributes) && fresh(r.MrEnclave) && fresh(r.Reserved2)
+//@ |   && fresh(r.MrSigner) && fresh(r.Reserved3) && fresh(r.Reserved4) && fresh(r.ReportData)
+//@ define qercFresh(q) = qerFresh(q.QeReport) && fresh(q.QeReportSignature) && fresh(q.QeAuthData.Data)
+//@ |   && fresh(q.PckCertificateChainData.PckCertChain)
+//@ define sdFresh(d) = fresh(d.Signature) && fresh(d.EcdsaAttestationKey) && qercFresh(d.CertificationData.QeReportCertificationData)
+//@ define quoteFresh(q) = hdrFresh(q.Header) && bodyFresh(q.TdQuoteBody) && sdFresh(q.SignedData) && fresh(q.ExtraBytes)
+
+// ---- parsers ----
+
+//@ func determineQuoteFormat(b) (v, err)
+//@   ensures[iff] err == nil <==> len(b) >= 2
+//@   ensures[val] err == nil ==> v == uint32(rd16(seq(b), 0))
+
+//@ func headerToProto(b) (r, err)
+//@   requires len(b) == 48
+//@   ensures[iff] err == nil <==> rd16(seq(b), 0) == 4 && rd16(seq(b), 2) == 2 && rd32(seq(b), 4) == 0x81
+//@   ensures[fields] err == nil ==> hdrFields(r, seq(b))
+//@   ensures[ok] err == nil ==> hdrOK(r)
+//@   ensures[fresh] err == nil ==> hdrFresh(r)
+//@   ensures[reserialise] err == nil ==> hdrBytes(r) == seq(b)
+
+//@ func tdQuoteBodyToProto(b) (r, err)
+//@   requires len(b) == 584
+//@   ensures[total] err == nil
+//@   ensures[fields] bodyFields(r, seq(b))
+//@   ensures[ok] bodyOK(r)
+//@   ensures[fresh] bodyFresh(r)
+//@   loop 0: unroll 4
+//@   ensures[reserialise] bodyBytes(r) == seq(b)
+
+//@ func enclaveReportToProto(b) (r, err)
+//@   requires len(b) == 384
+//@   ensures[total] err == nil
+//@   ensures[fields] qerFields(r, seq(b))
+//@   ensures[ok] qerOK(r)
+//@   ensures[fresh] qerFresh(r)
+//@   ensures[reserialise] qerBytes(r) == seq(b)
+
+//@ func qeAuthDataToProto(b) (r, n, err)
+//@   ensures[iff] err == nil <==> authWF(seq(b))
+//@   ensures[fields] err == nil ==> authFields(r, seq(b)) && n == 2 + uint32(rd16(seq(b), 0))
+//@   ensures[ok] err == nil ==> authOK(r)
+//@   ensures[fresh] err == nil ==> fresh(r.Data)
+//@   ensures[reserialise] err == nil ==> authBytes(r) == seq(b)[0:2+int(rd16(seq(b), 0))]
+
+//@ func pckCertificateChainToProto(b) (r, err)
+//@   ensures[iff] err == nil <==> chainWF(seq(b))
+//@   ensures[fields] err == nil ==> chainFields(r, seq(b))
+//@   ensures[ok] err == nil ==> chainOK(r)
+//@   ensures[fresh] err == nil ==> fresh(r.PckCertChain)
+//@   ensures[reserialise] err == nil ==> chainBytes(r) == seq(b)
+
+//@ func qeReportCertificationDataToProto(b) (r, err)
+//@   ensures[iff] err == nil <==> qercWF(seq(b))
+//@   ensures[fields] err == nil ==> qercFields(r, seq(b))
+//@   ensures[ok] err == nil ==> qercOK(r)
+//@   ensures[fresh] err == nil ==> qercFresh(r)
+//@   ensures[reserialise] err == nil ==> qercBytes(r) == seq(b)
+
+//@ func certificationDataToProto(b) (r, err)
+//@   ensures[iff] err == nil <==> certWF(seq(b))
+//@   ensures[fields] err == nil ==> certFields(r, seq(b))
+//@   ensures[ok] err == nil ==> certOK(r)
+//@   ensures[fresh] err == nil ==> qercFresh(r.QeReportCertificationData)
+//@   ensures[reserialise] err == nil ==> certBytes(r) == seq(b)
+
+//@ func signedDataToProto(b) (r, err)
+//@   ensures[iff] err == nil <==> sdWF(seq(b))
+//@   ensures[fields] err == nil ==> sdFields(r, seq(b))
+//@   ensures[ok] err == nil ==> sdOK(r)
+//@   ensures[fresh] err == nil ==> sdFresh(r)
+//@   ensures[reserialise] err == nil ==> sdBytes(r) == seq(b)
+
+//@ func quoteToProtoV4(b) (r, err)
+//@   ensures[accepts-exactly] err == nil <==> quoteWF(seq(b))
+//@   ensures[fields] err == nil ==> quoteFields(r, seq(b))
+//@   ensures[ok] err == nil ==> quoteOK(r)
+//@   ensures[fresh] err == nil ==> quoteFresh(r)
+//@   ensures[reserialise] err == nil ==> quoteBytes(r) == seq(b)
+
+//@ func QuoteToProto(b) (q, err)
+//@   ensures[accepts-exactly] err == nil <==> quoteWF(seq(b))
+//@   ensures[type] err == nil ==> typeis(q, "*tdx.QuoteV4")
+//@   ensures[fields] err == nil ==> quoteFields(as(q, "*tdx.QuoteV4"), seq(b))
+//@   ensures[ok] err == nil ==> quoteOK(as(q, "*tdx.QuoteV4"))
+//@   ensures[fresh] err == nil ==> quoteFresh(as(q, "*tdx.QuoteV4"))
+//@   ensures[reserialise] err == nil ==> quoteBytes(as(q, "*tdx.QuoteV4")) == seq(b)
+
+// SignatureToDER builds the ASN.1 SEQUENCE { INTEGER r, INTEGER s } with
+// golang.org/x/crypto/cryptobyte; the encoder is trusted (assumed contract).
+//@ func SignatureToDER(x) (r, err)
+//@   trusted
+//@   ensures[iff] err == nil <==> len(x) == 64
+//@   ensures[der] err == nil ==> seq(r) == derSig(seq(x)[0:32], seq(x)[32:64])
+//@   fresh r
